@@ -2364,6 +2364,14 @@ func (s *swamp) Close() {
 	atomic.StoreInt32(&s.closing, 1)
 	s.closeMutex.Unlock()
 
+	s.flushAndRelease()
+
+}
+
+// flushAndRelease is the body of Close(): it writes everything that waits for the writer, closes the
+// chronicler, stops the internal goroutines and reports the swamp as closed. The caller has set closing=1.
+func (s *swamp) flushAndRelease() {
+
 	// write all treasures to the chroniclerInterface that are waiting for the writer and don't send events to the hydra
 	// because we are closing the swamp and ask the chroniclerInterface to not send file pointers for new files, because,
 	// we are closing the swamp and we don't need to write the file pointers to the treasures
@@ -2412,6 +2420,15 @@ func (s *swamp) sendClosedEvent() {
 // !!!!!!!! IMPORTANT: YOU NEED TO RELEASE THE TRANSACTION BEFORE CALLING THIS FUNCTION, BECAUSE THIS FUNCTION
 // WAITS FOR ALL TRANSACTIONS TO BE RELEASED
 func (s *swamp) Destroy() {
+	s.destroy(false)
+}
+
+// destroy is Destroy(). With onlyIfStillEmpty it is the automatic destroy that follows the removal
+// of the last treasure: requests that were already in flight on this swamp are drained first, and
+// one of them may have inserted a treasure after the emptiness check of the remover. Such a swamp
+// is not empty any more and must not be deleted: it is flushed and closed like an idle swamp, so
+// the inserted (and acknowledged) treasures are on disk when the swamp is summoned again.
+func (s *swamp) destroy(onlyIfStillEmpty bool) {
 
 	swampName := s.name.Get()
 	slog.Info("Destroy: starting", "swamp", swampName)
@@ -2461,6 +2478,12 @@ func (s *swamp) Destroy() {
 	// no new vigils can be started in the meantime.
 	s.Vigil.WaitForActiveVigilsClosed()
 	verifhook.Point("swamp.destroy.afterDrain")
+
+	if onlyIfStillEmpty && s.beaconKey.Count() > 0 {
+		slog.Info("Destroy: treasures were inserted while the empty swamp was being destroyed, closing it instead", "swamp", swampName)
+		s.flushAndRelease()
+		return
+	}
 
 	slog.Debug("Destroy: vigils closed", "swamp", swampName)
 
@@ -2674,7 +2697,7 @@ func (s *swamp) DeleteTreasure(key string, shadowDelete bool) error {
 		// feloldjuk a vigiliát, mert nincs több treasure a swampban és a Destroy megkövetelei a Vigil feloldását
 		verifhook.Point("swamp.autodestroy.beforeDestroy")
 		s.CeaseVigil()
-		s.Destroy()
+		s.destroy(true)
 		return nil
 	}
 
@@ -2713,7 +2736,7 @@ func (s *swamp) CloneAndDeleteExpiredTreasures(howMany int32) ([]treasure.Treasu
 			"swamp", s.name.Get())
 		verifhook.Point("swamp.autodestroy.beforeDestroy")
 		s.CeaseVigil()
-		s.Destroy()
+		s.destroy(true)
 	}
 
 	// return with the shifted treasures
@@ -2785,7 +2808,7 @@ func (s *swamp) CloneAndDeleteMatchingTreasures(beaconType BeaconType, order Bea
 	if s.beaconKey.Count() == 0 {
 		verifhook.Point("swamp.autodestroy.beforeDestroy")
 		s.CeaseVigil()
-		s.Destroy()
+		s.destroy(true)
 	}
 
 	return shiftedTreasures, capReached, nil
@@ -2846,7 +2869,7 @@ func (s *swamp) CloneAndDeleteTreasuresByKeys(keys []string) ([]treasure.Treasur
 	if s.beaconKey.Count() == 0 {
 		verifhook.Point("swamp.autodestroy.beforeDestroy")
 		s.CeaseVigil()
-		s.Destroy()
+		s.destroy(true)
 	}
 
 	return result, nil
